@@ -6,6 +6,7 @@ import (
 	"bytes"
 	"fmt"
 	"go/ast"
+	"go/constant"
 	"go/format"
 	"go/parser"
 	"go/printer"
@@ -196,6 +197,25 @@ func declStrings(src string) ([]string, error) {
 		return nil, err
 	}
 	var out []string
+	// the values of the literals a declaration contains, in order: formatting respells numbers and never touches
+	// what a string or rune literal denotes
+	lits := func(n ast.Node) string {
+		var vs []string
+		ast.Inspect(n, func(m ast.Node) bool {
+			if bl, ok := m.(*ast.BasicLit); ok {
+				if v := constant.MakeFromLiteral(bl.Value, bl.Kind, 0); v.Kind() != constant.Unknown {
+					vs = append(vs, v.ExactString())
+				} else {
+					vs = append(vs, bl.Value)
+				}
+			}
+			return true
+		})
+		if len(vs) == 0 {
+			return ""
+		}
+		return " literals[" + strings.Join(vs, " ; ") + "]"
+	}
 	for _, d := range f.Decls {
 		switch x := d.(type) {
 		case *ast.GenDecl:
@@ -209,11 +229,11 @@ func declStrings(src string) ([]string, error) {
 					for _, n := range y.Names {
 						ns = append(ns, n.Name)
 					}
-					out = append(out, x.Tok.String()+" "+strings.Join(ns, ","))
+					out = append(out, x.Tok.String()+" "+strings.Join(ns, ",")+lits(y))
 				case *ast.TypeSpec:
 					var b bytes.Buffer
 					printer.Fprint(&b, token.NewFileSet(), y.Type)
-					out = append(out, "type "+y.Name.Name+" "+normalizeSpace(b.String()))
+					out = append(out, "type "+y.Name.Name+" "+normalizeSpace(b.String())+lits(y))
 				}
 			}
 		case *ast.FuncDecl:
@@ -221,7 +241,7 @@ func declStrings(src string) ([]string, error) {
 			cp := *x
 			cp.Body, cp.Doc = nil, nil
 			printer.Fprint(&b, token.NewFileSet(), &cp)
-			out = append(out, normalizeSpace(b.String()))
+			out = append(out, normalizeSpace(b.String())+lits(x))
 		}
 	}
 	for _, cg := range f.Comments {
@@ -229,6 +249,7 @@ func declStrings(src string) ([]string, error) {
 		if strings.Contains(t, "GENERATED BY gengo:") && cg.Pos() < f.Package {
 			continue
 		}
+		// gofmt reformats doc comments (blank lines around indented blocks, list markers): only the words are compared
 		out = append(out, "comment "+normalizeSpace(t))
 	}
 	return out, nil
@@ -462,7 +483,7 @@ func genBodyItems(r *Rng, mod, self string, id *int) []PItem {
 	for i := 0; i < n; i++ {
 		*id++
 		k := *id
-		switch r.Intn(20) {
+		switch r.Intn(21) {
 		case 0:
 			items = append(items, PItem{K: "block", S: fmt.Sprintf("func F%d() {}\n", k)})
 		case 1:
@@ -491,7 +512,7 @@ func genBodyItems(r *Rng, mod, self string, id *int) []PItem {
 		case 13:
 			items = append(items, PItem{K: "block", S: fmt.Sprintf("func H%d() (r int) {\n\tdefer func() { r++ }()\n\tfor i := 0; i < 3; i++ { if i%%2 == 0 { continue }; r += i }\n\tswitch r {\n\tcase 1, 2:\n\t\treturn 0\n\tdefault:\n\t}\n\treturn\n}\n", k)})
 		case 14:
-			if r.Chance(20) {
+			if r.Chance(6) {
 				// known-finding territory (F20): a lone var declaration after an empty line, next to another one
 				items = append(items, PItem{K: "block", S: fmt.Sprintf("var\n\nW%d int // t\n", k)}, PItem{K: "block", S: fmt.Sprintf("var X%d string\n", k)})
 			} else {
@@ -524,8 +545,17 @@ func genBodyItems(r *Rng, mod, self string, id *int) []PItem {
 			ref := Pick(r, c01Refs)
 			path := strings.ReplaceAll(strings.ReplaceAll(ref.path, "{mod}", mod), "{self}", self)
 			items = append(items, PItem{K: "ref", S: fmt.Sprintf("type U%d struct {\n\tF   []*@ref `json:\"f\"`\n\tGGGG map[string]@ref\n}\n", k), Path: path, Name: ref.name})
+		case 20:
+			// one declaration handed over in two Render calls, cut where an added line break would become content
+			parts := Pick(r, [][2]string{
+				{fmt.Sprintf("const Y%d = `left|", k), "|right`\n"},
+				{fmt.Sprintf("/* block comment %d,", k), " still the same line */\n"},
+				{fmt.Sprintf("var Z%d = \"a\" +", k), " \"b\"\n"},
+				{fmt.Sprintf("func K%d() string { return `x", k), "y` }\n"},
+			})
+			items = append(items, PItem{K: "block", S: parts[0]}, PItem{K: "block", S: parts[1]})
 		case 15:
-			if r.Chance(15) {
+			if r.Chance(6) {
 				items = append(items, PItem{K: "block", S: "//go:build linux\n\n"}) // known-finding territory (F18)
 			} else {
 				items = append(items, PItem{K: "block", S: fmt.Sprintf("/* block comment %d\n   second line */\n", k)})
